@@ -1,0 +1,339 @@
+//go:build verif
+
+package variants
+
+//@ # C05/C15: offsets between alignment and reference coordinates.
+//@ # refToMSA[k] = gap columns left of the k-th reference base; MSAToRef[i] = gap columns left of column i at base
+//@ # columns and 0 at gap columns (the shape pinned by TestGetMSAOffsets).
+//@ func GetMSAOffsets
+//@   ghost bases int = 0
+//@   loop 1:
+//@     invariant degappedLen == count(k, 0, range_i, refseq[k] != 244)
+//@   loop 2:
+//@     invariant gapsum == count(k, 0, i, refseq[k] == 244)
+//@     invariant bases == count(k, 0, i, refseq[k] != 244)
+//@     invariant bases + gapsum == i
+//@     invariant len(refToMSA) == count(k, 0, len(refseq), refseq[k] != 244) && len(MSAToRef) == len(refseq)
+//@     invariant forall(j, 0, i, implies(refseq[j] != 244, MSAToRef[j] == count(k, 0, j, refseq[k] == 244)))
+//@     invariant forall(j, 0, len(refseq), implies(refseq[j] == 244, MSAToRef[j] == 0))
+//@     invariant forall(j, 0, i, implies(refseq[j] != 244, refToMSA[count(k, 0, j, refseq[k] != 244)] == count(k, 0, j, refseq[k] == 244)))
+//@     invariant disjoint(refToMSA, MSAToRef) && freshslice(refToMSA) && freshslice(MSAToRef)
+//@     invariant forall(k, 0, bases, 0 <= refToMSA[k] && k + refToMSA[k] < i)
+//@     do-end if refseq[i] != 244 { bases++ }
+//@   ensures len(result1) == count(k, 0, len(refseq), refseq[k] != 244)
+//@   ensures len(result2) == len(refseq)
+//@   ensures forall(j, 0, len(refseq), implies(refseq[j] != 244, result2[j] == count(k, 0, j, refseq[k] == 244)))
+//@   ensures forall(j, 0, len(refseq), implies(refseq[j] == 244, result2[j] == 0))
+//@   ensures forall(j, 0, len(refseq), implies(refseq[j] != 244, result1[count(k, 0, j, refseq[k] != 244)] == count(k, 0, j, refseq[k] == 244)))
+//@   ensures [range] forall(k, 0, len(result1), 0 <= result1[k] && k + result1[k] < len(refseq))
+
+//@ # C05: run-length scan. The ghost variables are the specification's own state machine over the columns seen so far:
+//@ # refleft = reference bases to the left; gIns/gDel = a run is open; g*Ref = reference bases left of the run's start;
+//@ # g*Len = its length; gEmit = records the specification has emitted.
+//@ func getIndelsPair
+//@   requires len(query) == len(ref) && len(offsetMSACoord) == len(ref)
+//@   requires forall(j, 0, len(ref), implies(ref[j] != 244, offsetMSACoord[j] == count(k, 0, j, ref[k] == 244)))
+//@   requires forall(j, 0, len(ref), implies(ref[j] == 244, offsetMSACoord[j] == 0))
+//@   ghost refleft int = 0
+//@   ghost gapleft int = 0
+//@   ghost gIns bool = false
+//@   ghost gInsRef int = 0
+//@   ghost gInsLen int = 0
+//@   ghost gDel bool = false
+//@   ghost gDelRef int = 0
+//@   ghost gDelLen int = 0
+//@   ghost gEmit int = 0
+//@   loop 1:
+//@     invariant gapleft == count(k, 0, pos, ref[k] == 244) && refleft + gapleft == pos && refleft >= 0
+//@     invariant insOpen == gIns && delOpen == gDel
+//@     invariant implies(insOpen, insLength == gInsLen && insRefPos == gInsRef)
+//@     invariant refBases == refleft
+//@     invariant implies(delOpen, 0 <= delStart && delStart < pos && ref[delStart] != 244 && delLength == gDelLen && gDelRef == delStart - count(k, 0, delStart, ref[k] == 244))
+//@     invariant len(variants) == gEmit && freshslice(variants) && forall(j, 0, len(variants), variants[j].Changetype == "ins" || variants[j].Changetype == "del")
+//@     do-end if ref[pos] == 244 { gapleft++; if query[pos] != 244 { if gIns { gInsLen++ } else { gIns = true; gInsRef = refleft; gInsLen = 1 } } } else { if gIns { gEmit++; gIns = false }; if query[pos] == 244 { if gDel { gDelLen++ } else { gDel = true; gDelRef = refleft; gDelLen = 1 } } else { if gDel { if gDelRef != 0 { gEmit++ }; gDel = false } }; refleft++ }
+//@   after append#1: assert [ins.mid] gIns && variants[len(variants)-1].Changetype == "ins" && variants[len(variants)-1].Position == gInsRef && variants[len(variants)-1].Length == gInsLen
+//@   after append#2: assert [del] gDel && gDelRef != 0 && variants[len(variants)-1].Changetype == "del" && variants[len(variants)-1].Position == gDelRef + 1 && variants[len(variants)-1].Length == gDelLen
+//@   after append#3: assert [ins.end] gIns && variants[len(variants)-1].Changetype == "ins" && variants[len(variants)-1].Position == gInsRef && variants[len(variants)-1].Length == gInsLen
+//@   ensures [local.count] len(result) == ite(gIns, gEmit + 1, gEmit)
+//@   ensures [kinds] forall(j, 0, len(result), result[j].Changetype == "ins" || result[j].Changetype == "del")
+
+//@ spec posOf(k int) int uninterpreted
+//@ spec keepPos(p int, start int, end int) bool = (start <= 0 || p >= start) && (end <= 0 || p <= end)
+//@ spec fmtVariant(v Variant, appendSNP bool) string = ite(v.Changetype == "del", "del:" + itoa(v.Position) + ":" + itoa(v.Length), ite(v.Changetype == "ins", "ins:" + itoa(v.Position) + ":" + itoa(v.Length), ite(v.Changetype == "nuc", "nuc:" + v.RefAl + itoa(v.Position) + v.QueAl, ite(appendSNP, "aa:" + v.Feature + ":" + v.RefAl + itoa(v.Residue) + v.QueAl + "(" + v.SNPs + ")", "aa:" + v.Feature + ":" + v.RefAl + itoa(v.Residue) + v.QueAl))))
+//@ spec validType(v Variant) bool = v.Changetype == "del" || v.Changetype == "ins" || v.Changetype == "nuc" || v.Changetype == "aa"
+
+//@ func FormatVariant
+//@   ensures (result2 == nil) == validType(v)
+//@   ensures implies(validType(v), result1 == fmtVariant(v, appendSNP))
+
+//@ # C15 (window), C12 (order), C19 (failed writes reported), C15 (stdin: first record missing => indices start at 1).
+//@ func WriteVariants
+//@   modifies w, cErr, cWriteDone
+//@   requires forall(k, ite(firstmissing, 1, 0), ite(firstmissing, 1, 0) + len(recv(cVariants)), 0 <= posOf(k) && posOf(k) < len(recv(cVariants)) && recv(cVariants)[posOf(k)].Idx == k)
+//@   requires forall(a, 0, len(recv(cVariants)), ite(firstmissing, 1, 0) <= recv(cVariants)[a].Idx && recv(cVariants)[a].Idx < ite(firstmissing, 1, 0) + len(recv(cVariants)) && posOf(recv(cVariants)[a].Idx) == a)
+//@   loop 1:
+//@     invariant ite(firstmissing, 1, 0) <= counter && counter <= ite(firstmissing, 1, 0) + len(recv(cVariants)) && !in(outputMap, counter)
+//@     invariant forallint(k, in(outputMap, k) == (counter <= k && k < ite(firstmissing, 1, 0) + len(recv(cVariants)) && posOf(k) < range_i))
+//@     invariant forall(k, counter, ite(firstmissing, 1, 0) + len(recv(cVariants)), implies(posOf(k) < range_i, outputMap[k] == recv(cVariants)[posOf(k)]))
+//@     invariant forall(k, ite(firstmissing, 1, 0), counter, posOf(k) < range_i)
+//@     invariant !failed(w) && len(sent(cErr)) == 0 && len(sent(cWriteDone)) == 0
+//@   loop 2:
+//@     invariant ite(firstmissing, 1, 0) <= counter && counter <= ite(firstmissing, 1, 0) + len(recv(cVariants))
+//@     invariant forallint(k, in(outputMap, k) == (counter <= k && k < ite(firstmissing, 1, 0) + len(recv(cVariants)) && posOf(k) < range_i + 1))
+//@     invariant forall(k, counter, ite(firstmissing, 1, 0) + len(recv(cVariants)), implies(posOf(k) < range_i + 1, outputMap[k] == recv(cVariants)[posOf(k)]))
+//@     invariant forall(k, ite(firstmissing, 1, 0), counter, posOf(k) < range_i + 1)
+//@     invariant !failed(w) && len(sent(cErr)) == 0 && len(sent(cWriteDone)) == 0
+//@     decreases ite(firstmissing, 1, 0) + len(recv(cVariants)) - counter
+//@   loop 3:
+//@     invariant !failed(w) && len(sent(cErr)) == 0 && len(sent(cWriteDone)) == 0
+//@     invariant len(sa) == count(k, 0, range_i, keepPos(VL.Vs[k].Position, start, end))
+//@     invariant forall(j, 0, range_i, validType(VL.Vs[j]) || !keepPos(VL.Vs[j].Position, start, end))
+//@     invariant forall(j, 0, range_i, implies(keepPos(VL.Vs[j].Position, start, end), sa[count(k, 0, j, keepPos(VL.Vs[k].Position, start, end))] == fmtVariant(VL.Vs[j], appendSNP)))
+//@   before call:Write#2: assert [order] VL == recv(cVariants)[posOf(counter)] && VL.Queryname != refID
+//@   before call:Write#3: assert [window.len] len(sa) == count(k, 0, len(VL.Vs), keepPos(VL.Vs[k].Position, start, end))
+//@   before call:Write#3: assert [window.content] forall(j, 0, len(VL.Vs), implies(keepPos(VL.Vs[j].Position, start, end), sa[count(k, 0, j, keepPos(VL.Vs[k].Position, start, end))] == fmtVariant(VL.Vs[j], appendSNP)))
+//@   after call:Write#3: assert [row] written(w)[len(written(w))-2] == VL.Queryname + "," && written(w)[len(written(w))-1] == join(sa, "|") + "\n"
+//@   ensures [c19.reported] implies(failed(w), len(sent(cErr)) >= 1 && len(sent(cWriteDone)) == 0)
+//@   ensures [c12.done] implies(!failed(w) && len(sent(cErr)) == 0, len(sent(cWriteDone)) == 1)
+
+//@ # C19 for the aggregate writer: every failed Write is reported on cErr and the done signal is withheld.
+//@ func AggregateWriteVariants
+//@   modifies w, cErr, cWriteDone
+//@   ghost K Variant = arbitrary
+//@   ghost gOcc int = 0
+//@   after assign:Vskinny#1: do gOcc = gOcc + ite(Vskinny == K, 1, 0)
+//@   loop 1:
+//@     invariant !failed(w) && len(sent(cErr)) == 0 && len(sent(cWriteDone)) == 0 && len(written(w)) == 1
+//@     invariant [c13.counter] counter == float64(count(t, 0, range_i, recv(cVariants)[t].Queryname != refID))
+//@     invariant [c13.count] gOcc >= 0 && in(propMap, K) == (gOcc > 0) && propMap[K] == float64(gOcc)
+//@   loop 2:
+//@     invariant !failed(w) && len(sent(cErr)) == 0 && len(sent(cWriteDone)) == 0 && len(written(w)) == 1
+//@     invariant [c13.counter] counter == float64(count(t, 0, range_i1 + 1, recv(cVariants)[t].Queryname != refID))
+//@     invariant [c13.count] gOcc >= 0 && in(propMap, K) == (gOcc > 0) && propMap[K] == float64(gOcc)
+//@   loop 3:
+//@     invariant !failed(w) && len(sent(cErr)) == 0 && len(sent(cWriteDone)) == 0 && len(written(w)) == 1 && freshslice(order)
+//@     invariant len(order) == range_i && forall(j, 0, range_i, order[j] == mapkey(j) && in(propMap, order[j]))
+//@   loop 4:
+//@     invariant !failed(w) && len(sent(cErr)) == 0 && len(sent(cWriteDone)) == 0
+//@     invariant len(written(w)) == 1 + count(k, 0, range_i, !(propMap[order[k]] / counter < threshold))
+//@   after call:SliceStable#1: assert [keys.permuted] forall(j, 0, len(order), 0 <= sortperm(j) && sortperm(j) < len(order) && in(propMap, order[j]))
+//@   # C12: the row order does not depend on the map's iteration order: the comparator decides every pair of sorted rows
+//@   # except rows with identical mutation text
+//@   after call:SliceStable#1: assert [c12.total] forall(a, 0, len(order), forall(b, a + 1, len(order), sortless(a, b) || order[a].Representation == order[b].Representation))
+//@   after call:SliceStable#1: assert [c13.bypos] forall(a, 0, len(order), forall(b, a + 1, len(order), order[a].Position <= order[b].Position))
+//@   after call:Write#2: assert [row] !(propMap[V] / counter < threshold) && written(w)[len(written(w))-1] == V.Representation + "," + fmtfloat(propMap[V] / counter) + "\n"
+//@   after call:Write#2: assert [c13.freq] implies(V == K, gOcc > 0 && written(w)[len(written(w))-1] == K.Representation + "," + fmtfloat(float64(gOcc) / float64(count(t, 0, len(recv(cVariants)), recv(cVariants)[t].Queryname != refID))) + "\n")
+//@   before send#4: assert [c13.rows] !failed(w) && len(written(w)) == 1 + count(k, 0, len(order), !(propMap[order[k]] / counter < threshold))
+//@   ensures [c19.reported] implies(failed(w), len(sent(cErr)) >= 1 && len(sent(cWriteDone)) == 0)
+//@   ensures [c12.done] implies(!failed(w) && len(sent(cErr)) == 0, len(sent(cWriteDone)) == 1)
+
+//@ # C16: fifth copy of the scanner loop – safety sweep (no panic on any line sequence)
+//@ func findReference
+
+//@ # C04: coding / non-coding split of the genome
+//@ func gmin
+//@   requires len(s) >= 1
+//@   loop 1:
+//@     invariant exists(j, 0, len(s), s[j] == min) && forall(j, 0, range_i, min <= s[j])
+//@   ensures exists(j, 0, len(s), s[j] == result) && forall(j, 0, len(s), result <= s[j])
+//@ func gmax
+//@   requires len(s) >= 1
+//@   loop 1:
+//@     invariant exists(j, 0, len(s), s[j] == max) && forall(j, 0, range_i, max >= s[j])
+//@   ensures exists(j, 0, len(s), s[j] == result) && forall(j, 0, len(s), result >= s[j])
+
+//@ # codes: the positions 1..refLength that are in no region's Positions, ascending (the 'intergenic' list).
+//@ # coveredIdx(rs, p): 1-based position p+1 occurs in some region's Positions.
+//@ pred coveredIdx(rs []Region, p int) = exists(r, 0, len(rs), exists(k, 0, len(rs[r].Positions), rs[r].Positions[k] == p + 1))
+//@ pred coveredUpTo(rs []Region, n int, p int) = exists(r, 0, n, exists(k, 0, len(rs[r].Positions), rs[r].Positions[k] == p + 1))
+//@ func codes
+//@   requires refLength >= 0
+//@   requires forall(r, 0, len(proteincoding), forall(k, 0, len(proteincoding[r].Positions), 1 <= proteincoding[r].Positions[k] && proteincoding[r].Positions[k] <= refLength))
+//@   loop 1:
+//@     invariant len(codes) == refLength && freshslice(codes)
+//@     invariant forall(p, 0, refLength, codes[p] == coveredUpTo(proteincoding, range_i, p))
+//@   loop 2:
+//@     invariant len(codes) == refLength && freshslice(codes)
+//@     invariant forall(p, 0, refLength, codes[p] == (coveredUpTo(proteincoding, range_i1, p) || exists(k, 0, range_i, feature.Positions[k] == p + 1)))
+//@   loop 3:
+//@     invariant len(intergenicregions) == count(k, 0, i, !codes[k]) && freshslice(intergenicregions) && disjoint(intergenicregions, codes)
+//@     invariant forall(j, 0, i, implies(!codes[j], intergenicregions[count(k, 0, j, !codes[k])] == j + 1))
+//@     invariant forall(j, 0, len(intergenicregions), 1 <= intergenicregions[j] && intergenicregions[j] <= i && !codes[intergenicregions[j] - 1])
+//@     invariant forall(p, 0, refLength, codes[p] == old(coveredIdx(proteincoding, p)))
+//@     invariant forall(p, 0, refLength, implies(old(coveredIdx(proteincoding, p)), forall(j, 0, len(intergenicregions), intergenicregions[j] != p + 1)))
+//@     invariant forall(a, 0, len(intergenicregions), forall(b, a + 1, len(intergenicregions), intergenicregions[a] < intergenicregions[b]))
+//@   before return#1: assert [hint.witness] forall(j, 0, refLength, implies(!codes[j], 0 <= count(k, 0, j, !codes[k]) && count(k, 0, j, !codes[k]) < len(intergenicregions) && intergenicregions[count(k, 0, j, !codes[k])] == j + 1))
+//@   ensures [sound] forall(j, 0, len(result), 1 <= result[j] && result[j] <= refLength) && forall(p, 0, refLength, implies(old(coveredIdx(proteincoding, p)), forall(j, 0, len(result), result[j] != p + 1)))
+//@   ensures [complete] forall(p, 0, refLength, old(coveredIdx(proteincoding, p)) || exists(j, 0, len(result), result[j] == p + 1))
+//@   ensures [ascending] forall(a, 0, len(result), forall(b, a + 1, len(result), result[a] < result[b]))
+
+//@ # getNucsPair: one nuc record per listed position whose encoded pair is disjoint, in list order
+//@ func getNucsPair
+//@   requires len(ref) == len(query)
+//@   requires forall(j, 0, len(pos), 1 <= pos[j] && pos[j] <= len(offsetRefCoord) && 0 <= pos[j] - 1 + offsetRefCoord[pos[j]-1] && pos[j] - 1 + offsetRefCoord[pos[j]-1] < len(ref))
+//@   loop 1:
+//@     invariant forall(j, 0, len(variants), variants[j].Changetype == "nuc")
+//@     invariant freshslice(variants) && len(variants) == count(k, 0, range_i, (ref[pos[k] - 1 + offsetRefCoord[pos[k]-1]] & query[pos[k] - 1 + offsetRefCoord[pos[k]-1]]) < 16)
+//@     invariant forall(j, 0, range_i, implies((ref[pos[j] - 1 + offsetRefCoord[pos[j]-1]] & query[pos[j] - 1 + offsetRefCoord[pos[j]-1]]) < 16, variants[count(k, 0, j, (ref[pos[k] - 1 + offsetRefCoord[pos[k]-1]] & query[pos[k] - 1 + offsetRefCoord[pos[k]-1]]) < 16)].Position == pos[j] && variants[count(k, 0, j, (ref[pos[k] - 1 + offsetRefCoord[pos[k]-1]] & query[pos[k] - 1 + offsetRefCoord[pos[k]-1]]) < 16)].Changetype == "nuc"))
+//@   after append#1: assert [record] variants[len(variants)-1].Changetype == "nuc" && variants[len(variants)-1].Position == p && variants[len(variants)-1].RefAl == DA[ref[alignPos]] && variants[len(variants)-1].QueAl == DA[query[alignPos]] && (ref[alignPos] & query[alignPos]) < 16
+//@   ensures [local.count] len(result) == count(k, 0, len(pos), (ref[pos[k] - 1 + offsetRefCoord[pos[k]-1]] & query[pos[k] - 1 + offsetRefCoord[pos[k]-1]]) < 16)
+//@   ensures [kinds] forall(j, 0, len(result), result[j].Changetype == "nuc")
+//@   ensures [local.positions] forall(j, 0, len(pos), implies((ref[pos[j] - 1 + offsetRefCoord[pos[j]-1]] & query[pos[j] - 1 + offsetRefCoord[pos[j]-1]]) < 16, result[count(k, 0, j, (ref[pos[k] - 1 + offsetRefCoord[pos[k]-1]] & query[pos[k] - 1 + offsetRefCoord[pos[k]-1]]) < 16)].Position == pos[j] && result[count(k, 0, j, (ref[pos[k] - 1 + offsetRefCoord[pos[k]-1]] & query[pos[k] - 1 + offsetRefCoord[pos[k]-1]]) < 16)].Changetype == "nuc"))
+
+//@ # getAAsPair (C04): per complete codon of the feature, either one aa record (when the query codon has a dictionary
+//@ # entry different from the reference residue) or the codon's nuc records. Ghost: gDis = disjoint positions seen,
+//@ # gNuc = nuc records emitted, gIn = SNPs folded into aa records; gP1..gP3 = alignment columns of the current codon.
+//@ func getAAsPair
+//@   requires len(ref) == len(query)
+//@   requires forall(j, 0, len(region.Positions), 1 <= region.Positions[j] && region.Positions[j] <= len(offsetRefCoord) && 0 <= region.Positions[j] - 1 + offsetRefCoord[region.Positions[j]-1] && region.Positions[j] - 1 + offsetRefCoord[region.Positions[j]-1] < len(ref))
+//@   requires len(region.Translation) * 3 >= len(region.Positions)
+//@   ghost gDis int = 0
+//@   ghost gNuc int = 0
+//@   ghost gIn int = 0
+//@   ghost gP1 int = 0
+//@   ghost gP2 int = 0
+//@   loop 1:
+//@     invariant 0 <= codonCounter && codonCounter < 3 && 0 <= aaCounter && 3 * aaCounter + codonCounter <= range_i && freshslice(variants) && freshslice(codonSNPs) && disjoint(variants, codonSNPs)
+//@     invariant len(codonSNPs) <= codonCounter && gDis == len(codonSNPs) + gNuc + gIn && gNuc + gIn >= 0
+//@     invariant forall(j, 0, len(codonSNPs), codonSNPs[j].Changetype == "nuc")
+//@     invariant forall(j, 0, len(variants), variants[j].Changetype == "nuc" || variants[j].Changetype == "aa")
+//@     invariant decodedCodon == ite(codonCounter == 0, "", ite(codonCounter == 1, DA[query[gP1]], DA[query[gP1]] + DA[query[gP2]]))
+//@     invariant implies(codonCounter >= 1, 0 <= gP1 && gP1 < len(query)) && implies(codonCounter == 2, 0 <= gP2 && gP2 < len(query))
+//@   loop 3:
+//@     invariant freshslice(variants) && freshslice(codonSNPs) && disjoint(variants, codonSNPs) && codonCounter == 3
+//@     invariant gDis == len(codonSNPs) - range_i + gNuc + gIn && gNuc + gIn >= 0
+//@     invariant forall(j, 0, len(codonSNPs), codonSNPs[j].Changetype == "nuc")
+//@     invariant forall(j, 0, len(variants), variants[j].Changetype == "nuc" || variants[j].Changetype == "aa")
+//@   after assign:alignmentPos#1: do if ref[alignmentPos] != 244 { if (query[alignmentPos] & ref[alignmentPos]) < 16 { gDis++ }; if codonCounter == 0 { gP1 = alignmentPos } else { if codonCounter == 1 { gP2 = alignmentPos } } }
+//@   after append#3: assert [aa] variants[len(variants)-1].Changetype == "aa" && variants[len(variants)-1].Feature == region.Name && variants[len(variants)-1].Residue == aaCounter + 1 && variants[len(variants)-1].RefAl == string(region.Translation[aaCounter]) && variants[len(variants)-1].QueAl == aa && aa != refaa && aa != "X" && in(CD, decodedCodon) && aa == CD[decodedCodon] && variants[len(variants)-1].Position == refPos - 2 * region.Strand
+//@   after append#3: assert [aa.codon] implies(region.Strand != -1, decodedCodon == DA[query[gP1]] + DA[query[gP2]] + DA[query[alignmentPos]])
+//@   after append#3: do gIn += len(codonSNPs)
+//@   after append#4: do gNuc++
+//@   ensures [kinds] forall(j, 0, len(result), result[j].Changetype == "nuc" || result[j].Changetype == "aa")
+//@   ensures [local.nothing_lost] implies(codonCounter == 0, gDis == gNuc + gIn)
+
+//@ # GetVariantsPair (C04/C05): merge, stable sort by (Position, Changetype), drop deletions at position 0 and adjacent
+//@ # duplicates. Nothing else is lost: every merged record that is not a del@0 equals some record of the output.
+//@ spec vLess(pa int, ca string, pb int, cb string) bool = pa < pb || (pa == pb && ca < cb)
+//@ func GetVariantsPair deterministic
+//@   requires len(ref) == len(query) && len(offsetMSACoord) == len(ref)
+//@   requires forall(j, 0, len(ref), implies(ref[j] != 244, offsetMSACoord[j] == count(k, 0, j, ref[k] == 244)))
+//@   requires forall(j, 0, len(ref), implies(ref[j] == 244, offsetMSACoord[j] == 0))
+//@   requires forall(j, 0, len(intregions), 1 <= intregions[j] && intregions[j] <= len(offsetRefCoord) && 0 <= intregions[j] - 1 + offsetRefCoord[intregions[j]-1] && intregions[j] - 1 + offsetRefCoord[intregions[j]-1] < len(ref))
+//@   requires forall(r, 0, len(cdsregions), len(cdsregions[r].Translation) * 3 >= len(cdsregions[r].Positions) && forall(j, 0, len(cdsregions[r].Positions), 1 <= cdsregions[r].Positions[j] && cdsregions[r].Positions[j] <= len(offsetRefCoord) && 0 <= cdsregions[r].Positions[j] - 1 + offsetRefCoord[cdsregions[r].Positions[j]-1] && cdsregions[r].Positions[j] - 1 + offsetRefCoord[cdsregions[r].Positions[j]-1] < len(ref)))
+//@   ghost gW map[int]int = make(map[int]int)
+//@   loop 1:
+//@     invariant freshslice(AAs) && forall(j, 0, len(AAs), AAs[j].Changetype == "nuc" || AAs[j].Changetype == "aa")
+//@   loop 2:
+//@     invariant freshslice(finalVariants) && disjoint(finalVariants, variants)
+//@     invariant forall(a, 0, len(finalVariants), exists(b, 0, i, finalVariants[a] == variants[b]))
+//@     invariant forall(b, 0, i, (variants[b].Changetype == "del" && variants[b].Position == 0) || (0 <= gW[b] && gW[b] < len(finalVariants) && finalVariants[gW[b]] == variants[b]))
+//@     invariant implies(len(finalVariants) > 0, previousVariant == finalVariants[len(finalVariants)-1]) && implies(len(finalVariants) == 0, previousVariant.Changetype == "")
+//@     invariant forall(b, 0, len(variants), variants[b].Changetype != "")
+//@     invariant forall(a, 0, len(finalVariants), !(finalVariants[a].Changetype == "del" && finalVariants[a].Position == 0))
+//@     invariant forall(a, 0, len(finalVariants), forall(b, a + 1, len(finalVariants), !vLess(finalVariants[b].Position, finalVariants[b].Changetype, finalVariants[a].Position, finalVariants[a].Changetype)))
+//@     invariant implies(len(finalVariants) > 0 && i < len(variants), !vLess(variants[i].Position, variants[i].Changetype, finalVariants[len(finalVariants)-1].Position, finalVariants[len(finalVariants)-1].Changetype))
+//@   after append#5: do gW[i] = len(finalVariants) - 1
+//@   after append#6: do gW[i] = len(finalVariants) - 1
+//@   before if#4: do if v == previousVariant { gW[i] = len(finalVariants) - 1 }
+//@   ensures result2 == nil && result1.Queryname == queryID && result1.Idx == idx
+//@   ensures [local.nothing_lost] forall(b, 0, len(variants), (variants[b].Changetype == "del" && variants[b].Position == 0) || (0 <= gW[b] && gW[b] < len(finalVariants) && finalVariants[gW[b]] == variants[b]))
+//@   ensures [sorted] forall(a, 0, len(result1.Vs), forall(b, a + 1, len(result1.Vs), !vLess(result1.Vs[b].Position, result1.Vs[b].Changetype, result1.Vs[a].Position, result1.Vs[a].Changetype)))
+//@   ensures [nodel0] forall(a, 0, len(result1.Vs), !(result1.Vs[a].Changetype == "del" && result1.Vs[a].Position == 0))
+
+//@ # C11 (FASTA side): every record is handed to GetVariantsPair together with the reference record and the offset tables
+//@ # the caller computed from that reference (Variants: refToMSA, MSAToRef = GetMSAOffsets(ref.Seq)); the result is
+//@ # forwarded unchanged. The offsets' specification is this function's precondition (GetMSAOffsets' postcondition).
+//@ func getVariants
+//@   modifies cVariants, cErr
+//@   requires forall(j, 0, len(ref.Seq), implies(ref.Seq[j] != 244, offsetMSACoord[j] == count(k, 0, j, ref.Seq[k] == 244)))
+//@   requires forall(j, 0, len(ref.Seq), implies(ref.Seq[j] == 244, offsetMSACoord[j] == 0))
+//@   requires len(offsetMSACoord) == len(ref.Seq)
+//@   requires forall(k, 0, len(offsetRefCoord), 0 <= offsetRefCoord[k] && k + offsetRefCoord[k] < len(ref.Seq))
+//@   requires forall(j, 0, len(intregions), 1 <= intregions[j] && intregions[j] <= len(offsetRefCoord))
+//@   requires forall(r, 0, len(cdsregions), len(cdsregions[r].Translation) * 3 >= len(cdsregions[r].Positions) && forall(j, 0, len(cdsregions[r].Positions), 1 <= cdsregions[r].Positions[j] && cdsregions[r].Positions[j] <= len(offsetRefCoord)))
+//@   loop 1:
+//@     invariant len(sent(cVariants)) == range_i && len(sent(cErr)) == 0
+//@     invariant forall(t, 0, range_i, sent(cVariants)[t].Queryname == recv(cMSA)[t].ID && sent(cVariants)[t].Idx == recv(cMSA)[t].Idx)
+//@   before call:GetVariantsPair#1: assert [c11.args] len(record.Seq) == len(ref.Seq) && record == recv(cMSA)[range_i]
+//@   before call:GetVariantsPair#1: assert [c11.wiring] sameslice(arg(0), ref.Seq) && sameslice(arg(1), record.Seq) && arg(2) == ref.ID && arg(3) == record.ID && arg(4) == record.Idx && sameslice(arg(5), cdsregions) && sameslice(arg(6), intregions) && sameslice(arg(7), offsetRefCoord) && sameslice(arg(8), offsetMSACoord)
+//@   before send#2: assert [c11.forward] err == nil && AS.Queryname == record.ID && AS.Idx == record.Idx
+
+//@ # C14: the integer layer of region construction from GFF rows that share an ID.
+//@ # GFF3: the phase of a CDS row is the number of bases to skip at the row's 5' end to reach the next codon; only the
+//@ # 5'-most row's phase moves the start of the coding sequence - the later rows continue the frame, so their whole
+//@ # extent belongs to the feature. rowLo/rowHi: the coordinates row r contributes (ascending file order assumed).
+//@ spec gffLoP(fs []gff.Feature, a int) int = fs[a].Start + ite(a == 0, fs[a].Phase, 0)
+//@ spec gffLenP(fs []gff.Feature, a int) int = fs[a].End - gffLoP(fs, a) + 1
+//@ spec gffHiM(fs []gff.Feature, a int) int = fs[a].End - ite(a == len(fs) - 1, fs[a].Phase, 0)
+//@ spec gffLenM(fs []gff.Feature, a int) int = gffHiM(fs, a) - fs[a].Start + 1
+//@ func CDSRegion2fromGFF
+//@   requires len(fs) >= 1 && implies(in(fs[0].Attributes, "Name"), len(fs[0].Attributes["Name"]) >= 1)
+//@   requires forall(w, 0, len(fs), fs[w].Start >= 1 && fs[w].End <= len(refSeqDegapped) && 0 <= fs[w].Phase && fs[w].Phase <= 2 && fs[w].Start + fs[w].Phase <= fs[w].End)
+//@   # ghost: gStart[a] = index in pos where row a's positions begin; gRow[y] = the row position y came from
+//@   ghost gStart map[int]int = map[int]int{}
+//@   ghost gRow map[int]int = map[int]int{}
+//@   after append#1: do gRow[len(pos)-1] = range_i1
+//@   loop 1:
+//@     invariant freshslice(pos) && r.Name == ite(in(fs[0].Attributes, "Name"), fs[0].Attributes["Name"][0], "") && forall(a, 0, range_i, fs[a].Strand == "+")
+//@     invariant [c14.rows.plus] gStart[0] == 0 && len(pos) == gStart[range_i] && forall(a, 0, range_i, gStart[a+1] == gStart[a] + gffLenP(fs, a))
+//@     invariant [c14.mono.plus] forall(a, 0, range_i, gStart[a+1] <= gStart[range_i])
+//@     invariant [c14.rowof.plus] forall(y, 0, len(pos), 0 <= gRow[y] && gRow[y] < range_i && gStart[gRow[y]] <= y && y < gStart[gRow[y]+1])
+//@     invariant [c14.content.plus] forall(y, 0, len(pos), pos[y] == gffLoP(fs, gRow[y]) + y - gStart[gRow[y]])
+//@     invariant implies(range_i >= 1, len(pos) >= 1)
+//@     invariant forall(y, 0, len(pos), 1 <= pos[y] && pos[y] <= len(refSeqDegapped))
+//@     do-end gStart[range_i + 1] = len(pos)
+//@   loop 2:
+//@     invariant freshslice(pos) && r.Name == ite(in(fs[0].Attributes, "Name"), fs[0].Attributes["Name"][0], "") && forall(a, 0, range_i1, fs[a].Strand == "+")
+//@     invariant [c14.rows.plus] gStart[0] == 0 && forall(a, 0, range_i1, gStart[a+1] == gStart[a] + gffLenP(fs, a))
+//@     invariant [c14.mono.plus] forall(a, 0, range_i1, gStart[a+1] <= gStart[range_i1])
+//@     invariant [c14.row.plus] gffLoP(fs, range_i1) <= i && i <= f.End + 1 && len(pos) == gStart[range_i1] + i - gffLoP(fs, range_i1)
+//@     invariant [c14.rowof.plus] forall(y, 0, len(pos), 0 <= gRow[y] && gRow[y] <= range_i1 && gStart[gRow[y]] <= y && implies(gRow[y] < range_i1, y < gStart[gRow[y]+1]))
+//@     invariant [c14.content.plus] forall(y, 0, len(pos), pos[y] == gffLoP(fs, gRow[y]) + y - gStart[gRow[y]])
+//@     invariant implies(range_i1 >= 1, len(pos) >= 1)
+//@     invariant forall(y, 0, len(pos), 1 <= pos[y] && pos[y] <= len(refSeqDegapped))
+//@   ghost gStartM map[int]int = map[int]int{}
+//@   ghost gRowM map[int]int = map[int]int{}
+//@   after append#2: do gRowM[len(pos)-1] = j
+//@   loop 4:
+//@     invariant -1 <= j && j <= len(fs) - 1 && freshslice(pos) && r.Name == ite(in(fs[0].Attributes, "Name"), fs[0].Attributes["Name"][0], "") && forall(a, j + 1, len(fs), fs[a].Strand == "-")
+//@     invariant [c14.rows.minus] gStartM[len(fs)-1] == 0 && forall(a, j + 1, len(fs), gStartM[a-1] == gStartM[a] + gffLenM(fs, a) && gStartM[a-1] <= gStartM[j]) && len(pos) == gStartM[j]
+//@     invariant [c14.rowof.minus] forall(y, 0, len(pos), j < gRowM[y] && gRowM[y] <= len(fs) - 1 && gStartM[gRowM[y]] <= y && y < gStartM[gRowM[y]-1])
+//@     invariant [c14.content.minus] forall(y, 0, len(pos), pos[y] == gffHiM(fs, gRowM[y]) - (y - gStartM[gRowM[y]]))
+//@     invariant implies(j < len(fs) - 1, len(pos) >= 1)
+//@     invariant forall(y, 0, len(pos), 1 <= pos[y] && pos[y] <= len(refSeqDegapped))
+//@     do-start gStartM[len(fs)-1] = 0
+//@     do-end gStartM[j - 1] = len(pos)
+//@   loop 5:
+//@     invariant 0 <= j && j <= len(fs) - 1 && freshslice(pos) && r.Name == ite(in(fs[0].Attributes, "Name"), fs[0].Attributes["Name"][0], "") && forall(a, j, len(fs), fs[a].Strand == "-")
+//@     invariant [c14.rows.minus] gStartM[len(fs)-1] == 0 && forall(a, j + 1, len(fs), gStartM[a-1] == gStartM[a] + gffLenM(fs, a) && gStartM[a-1] <= gStartM[j])
+//@     invariant [c14.row.minus] f == fs[j] && fs[j].Start - 1 <= i && i <= gffHiM(fs, j) && len(pos) == gStartM[j] + gffHiM(fs, j) - i
+//@     invariant [c14.rowof.minus] forall(y, 0, len(pos), j <= gRowM[y] && gRowM[y] <= len(fs) - 1 && gStartM[gRowM[y]] <= y && implies(gRowM[y] > j, y < gStartM[gRowM[y]-1]))
+//@     invariant [c14.content.minus] forall(y, 0, len(pos), pos[y] == gffHiM(fs, gRowM[y]) - (y - gStartM[gRowM[y]]))
+//@     invariant implies(j < len(fs) - 1, len(pos) >= 1)
+//@     invariant forall(y, 0, len(pos), 1 <= pos[y] && pos[y] <= len(refSeqDegapped))
+//@   loop 3:
+//@     invariant len(refSeqFeat) == range_i && forall(y, 0, range_i, refSeqFeat[y] == refSeqDegapped[r.Positions[y]-1])
+//@   loop 6:
+//@     invariant len(refSeqFeat) == range_i && forall(y, 0, range_i, refSeqFeat[y] == refSeqDegapped[r.Positions[y]-1])
+//@   ensures [strand] implies(result2 == nil && fs[0].Strand == "+", result1.Strand == 1 && forall(a, 0, len(fs), fs[a].Strand == "+")) && implies(result2 == nil && fs[0].Strand == "-", result1.Strand == -1 && forall(a, 0, len(fs), fs[a].Strand == "-")) && implies(fs[0].Strand == ".", result2 != nil)
+//@   ensures [name] result1.Name == ite(in(fs[0].Attributes, "Name"), fs[0].Attributes["Name"][0], "")
+//@   ensures [local.positions.plus] implies(result2 == nil && fs[0].Strand == "+", len(result1.Positions) == gStart[len(fs)] && forall(y, 0, len(result1.Positions), 0 <= gRow[y] && gRow[y] < len(fs) && gStart[gRow[y]] <= y && y < gStart[gRow[y]+1] && result1.Positions[y] == gffLoP(fs, gRow[y]) + y - gStart[gRow[y]]))
+//@   ensures [local.len.minus] implies(result2 == nil && fs[0].Strand == "-", len(result1.Positions) == gStartM[-1])
+//@   ensures [local.positions.minus] implies(result2 == nil && fs[0].Strand == "-", forall(y, 0, len(result1.Positions), 0 <= gRowM[y] && gRowM[y] < len(fs) && gStartM[gRowM[y]] <= y && y < gStartM[gRowM[y]-1] && result1.Positions[y] == gffHiM(fs, gRowM[y]) - (y - gStartM[gRowM[y]])))
+//@   ensures [bounds] implies(result2 == nil && (fs[0].Strand == "+" || fs[0].Strand == "-"), len(result1.Positions) >= 1 && forall(y, 0, len(result1.Positions), result1.Start <= result1.Positions[y] && result1.Positions[y] <= result1.Stop && 1 <= result1.Positions[y] && result1.Positions[y] <= len(refSeqDegapped)))
+//@   ensures [translation] implies(result2 == nil && (fs[0].Strand == "+" || fs[0].Strand == "-"), 3 * len(result1.Translation) == len(result1.Positions))
+
+//@ # C14, GenBank side glue: the region's positions are the location's positions from /codon_start on, a multiple of 3;
+//@ # name, translation (+ stop), strand and the start/stop bounds as documented.
+//@ func CDSRegion2fromGenbank
+//@   before return#6: assert [c14.gb.positions] len(r.Positions) == len(temp) - (codon_start - 1) && forall(k, 0, len(r.Positions), r.Positions[k] == temp[codon_start - 1 + k]) && len(r.Positions) % 3 == 0
+//@   before return#6: assert [c14.gb.fields] r.Name == f.Info["gene"] && r.Translation == f.Info["translation"] + "*" && r.Strand == ite(reverse, -1, 1) && r.Whichtype == "protein-coding"
+//@   before return#6: assert [c14.gb.bounds] forall(k, 0, len(r.Positions), r.Start <= r.Positions[k] && r.Positions[k] <= r.Stop)
+//@   ensures [err.gene] implies(!in(f.Info, "gene") || !in(f.Info, "codon_start"), result2 != nil)
+
+//@ # C12 on RegionsFromGFF: the regions are built without ranging over a map or any other source of nondeterminism
+//@ # (obligation `deterministic`, syntactic; F8). Its grouping by ID (a map of slices that are appended to) is not under
+//@ # a functional contract: the coverage statement of C04 for it (F9) is checked bounded by oracle variants_regionsfromgff.
+//@ func RegionsFromGFF deterministic
+//@   modifies everything
